@@ -39,6 +39,7 @@ type attOpts struct {
 	dups      bool // C15: resent chunks
 	markerPct int  // names / alarm ids containing the marker bytes
 	finAtEnd  bool
+	grouped   bool // all 0x1211 first, then the data of all files interleaved, then the 0x1212s
 }
 
 // fileName draws a file name valid on the wire for the dialect (no NUL, fits the chunk header).
@@ -120,11 +121,12 @@ func (g *genCtx) genUpload(ci int, o attOpts) {
 	}
 	p.Expect.Uploads = append(p.Expect.Uploads, Upload{Conn: ci, Files: files})
 	var units []SentFrame
+	cur := &units // where ctl/emit append: the session prologue, or one of a file's three sections
 	serial := uint16(g.r.next())
 	ctl := func(id uint16, body []byte, file int, name string) {
 		serial++
 		f := ref.Frame{ID: id, Ver19: c.Ver19, VerByte: 1, Phone: c.Phone, Serial: serial, Body: body}
-		units = append(units, SentFrame{ID: id, Serial: serial, Body: body, Valid: true, Raw: f.Encode(), File: file, Name: HexStr(name)})
+		*cur = append(*cur, SentFrame{ID: id, Serial: serial, Body: body, Valid: true, Raw: f.Encode(), File: file, Name: HexStr(name)})
 	}
 	alarmID := fmt.Sprintf("ALARM%06d", g.r.intn(1000000))
 	if o.markerPct > 0 && g.r.chance(o.markerPct) {
@@ -135,9 +137,14 @@ func (g *genCtx) genUpload(ci int, o attOpts) {
 	for i := range order {
 		order[i] = i
 	}
+	pre := make([][]SentFrame, nfiles)
+	data := make([][]SentFrame, nfiles)
+	post := make([][]SentFrame, nfiles)
 	for fi := range files {
 		f := files[fi]
+		cur = &pre[fi]
 		ctl(0x1211, body1211(string(f.Name), f.Type, len(f.Data)), fi+1, string(f.Name))
+		cur = &data[fi]
 		// split into chunks
 		type ch struct{ off, n int }
 		var chunks []ch
@@ -169,7 +176,7 @@ func (g *genCtx) genUpload(ci int, o attOpts) {
 			}
 		}
 		emit := func(c ch) {
-			units = append(units, SentFrame{Chunk: true, File: fi + 1, Off: c.off, Body: f.Data[c.off : c.off+c.n], Valid: true,
+			*cur = append(*cur, SentFrame{Chunk: true, File: fi + 1, Off: c.off, Body: f.Data[c.off : c.off+c.n], Valid: true,
 				Raw: chunkUnit(dialect, string(f.Name), c.off, f.Data[c.off:c.off+c.n]), Name: f.Name})
 		}
 		var withheld []ch
@@ -183,6 +190,11 @@ func (g *genCtx) genUpload(ci int, o attOpts) {
 				emit(c)
 				p.Faults = append(p.Faults, "pkt.dup")
 			}
+		}
+		cur = &post[fi]
+		if o.dups && len(withheld) == 0 && len(chunks) > 1 && g.r.chance(20) {
+			emit(chunks[g.r.intn(len(chunks))]) // re-sent after the file is complete
+			p.Faults = append(p.Faults, "pkt.dup_after_complete")
 		}
 		ctl(0x1212, body1211(string(f.Name), f.Type, len(f.Data)), fi+1, string(f.Name))
 		if len(withheld) > 0 {
@@ -199,6 +211,21 @@ func (g *genCtx) genUpload(ci int, o attOpts) {
 				}
 				ctl(0x1212, body1211(string(f.Name), f.Type, len(f.Data)), fi+1, string(f.Name))
 			}
+		}
+	}
+	if o.grouped {
+		for fi := range files {
+			units = append(units, pre[fi]...)
+		}
+		units = append(units, g.mergeStreams(data...)...)
+		for fi := range files {
+			units = append(units, post[fi]...)
+		}
+	} else {
+		for fi := range files {
+			units = append(units, pre[fi]...)
+			units = append(units, data[fi]...)
+			units = append(units, post[fi]...)
 		}
 	}
 	p.Expect.Frames[ci] = units
